@@ -112,7 +112,14 @@ class TaskScheduler(object):
                 self._schedule_batch(task.batch)
                 self._tasks.pop()
             else:
-                task._compute()
+                try:
+                    task._compute()
+                except Exception:
+                    # Future._compute() stores the error on the future and re-raises it.
+                    # The stored error is delivered to the awaiting task when it unwraps
+                    # the value, so it must not escape through the scheduler.
+                    if not task.is_computed():
+                        raise
                 self._tasks.pop()
 
     def _schedule_batch(self, batch):
